@@ -120,6 +120,12 @@ void XmlDoc::parseMathML(const std::string &input)
     context->_private = reinterpret_cast<void *>(this);
     xmlSetStructuredErrorFunc(context, structuredErrorCallback);
     mPimpl->mXmlDocPtr = xmlCtxtReadDoc(context, reinterpret_cast<const xmlChar *>(input.c_str()), "/", nullptr, 0);
+    // When a document has no encoding, xmlValidateDtd() looks at attribute values with every
+    // non-ASCII character turned into a character reference, and so rejects an id such as
+    // "é1" although it is a valid XML name: record that the text we parsed is UTF-8.
+    if ((mPimpl->mXmlDocPtr != nullptr) && (mPimpl->mXmlDocPtr->encoding == nullptr)) {
+        mPimpl->mXmlDocPtr->encoding = xmlStrdup(reinterpret_cast<const xmlChar *>("UTF-8"));
+    }
     xmlParserInputBufferPtr buf = xmlParserInputBufferCreateMem(reinterpret_cast<const char *>(mathMLDTD.c_str()), sizeMathmlDTDUncompressed, XML_CHAR_ENCODING_ASCII);
     xmlDtdPtr dtd = xmlIOParseDTD(nullptr, buf, XML_CHAR_ENCODING_ASCII);
     xmlValidateDtd(&(context->vctxt), mPimpl->mXmlDocPtr, dtd);
